@@ -9,6 +9,7 @@ package main
 
 import (
 	"fmt"
+	"go/token"
 	"go/types"
 
 	"golang.org/x/tools/go/ssa"
@@ -21,6 +22,7 @@ func init() {
 func checkC10(c *Ctx, r *Report) {
 	e := c.E1()
 	e1Assumptions(r, e)
+	cpyCompleteRule(c, r, "R10d")
 	r.Rule("R10a", "Merge/NewFrom/MustNewFrom: the source parameter is not modified and nothing derived from it is stored into the destination, the options or package-level state", 9)
 	type ep struct {
 		fn  *ssa.Function
@@ -193,4 +195,108 @@ func checkC10(c *Ctx, r *Report) {
 		}
 		r.Check(bad == "", "R10c", name, "fresh result", c.Pos(fn.Pos()), "result is fresh and independent of the input; input not modified", bad)
 	}
+}
+
+// cpyCompleteRule: the copy of a sub-configuration (cfgSub.cpy and the helpers only it calls) copies the
+// named entries and the indexed entries of the node on one and the same path. A node can hold both
+// (an object merged with a list at the same key); a copy that treats the two parts as alternatives drops
+// one of them whenever a merged value is re-copied into its parent.
+func cpyCompleteRule(c *Ctx, r *Report, rule string) {
+	r.Rule(rule, "cfgSub.cpy copies the dictionary part and the list part of a node on the same path (neither copy excludes the other)", 1)
+	cpy := c.MethodImpl(c.Named("", "cfgSub"), "cpy")
+	if cpy == nil {
+		r.add(rule, "ucfg.cfgSub.cpy", "both parts copied", "-", Undecided, true, "cfgSub.cpy not found")
+		return
+	}
+	name := c.FnName(cpy)
+	type site struct {
+		call ssa.CallInstruction
+		kind string // "dict" | "list"
+	}
+	var sites []site
+	for _, fn := range c.Family(cpy) {
+		for _, ci := range CallsIn(fn, false) {
+			cc := ci.Common()
+			if !cc.IsInvoke() || cc.Method.Name() != "cpy" {
+				continue
+			}
+			// where does the element come from: a map iteration or a slice element?
+			kind := ""
+			seen := map[ssa.Value]bool{}
+			var walk func(v ssa.Value, d int)
+			walk = func(v ssa.Value, d int) {
+				if seen[v] || d > 12 || kind != "" {
+					return
+				}
+				seen[v] = true
+				switch x := v.(type) {
+				case *ssa.Extract:
+					if nx, ok := x.Tuple.(*ssa.Next); ok {
+						if rg, ok := nx.Iter.(*ssa.Range); ok {
+							if _, isMap := rg.X.Type().Underlying().(*types.Map); isMap {
+								kind = "dict"
+								return
+							}
+						}
+					}
+					walk(x.Tuple, d+1)
+				case *ssa.Lookup:
+					if _, isMap := x.X.Type().Underlying().(*types.Map); isMap {
+						kind = "dict"
+					}
+				case *ssa.UnOp:
+					if x.Op == token.MUL {
+						if ia, ok := x.X.(*ssa.IndexAddr); ok {
+							if _, isSlice := ia.X.Type().Underlying().(*types.Slice); isSlice {
+								kind = "list"
+								return
+							}
+						}
+						if vals, ok := localStores(x.X); ok {
+							for _, s := range vals {
+								walk(s, d+1)
+							}
+						}
+					}
+				case *ssa.Phi:
+					for _, e := range x.Edges {
+						walk(e, d+1)
+					}
+				case *ssa.ChangeInterface:
+					walk(x.X, d+1)
+				}
+			}
+			walk(cc.Value, 0)
+			if kind != "" {
+				sites = append(sites, site{ci, kind})
+			}
+		}
+	}
+	var dict, list []site
+	for _, s := range sites {
+		if s.kind == "dict" {
+			dict = append(dict, s)
+		} else {
+			list = append(list, s)
+		}
+	}
+	if len(dict) == 0 || len(list) == 0 {
+		r.add(rule, name, "both parts copied", c.Pos(cpy.Pos()), Undecided, true, fmt.Sprintf("expected an element copy in a loop over the dictionary and one in a loop over the list, found %d and %d", len(dict), len(list)))
+		return
+	}
+	ok := false
+	for _, d := range dict {
+		for _, l := range list {
+			db, lb := d.call.(ssa.Instruction).Block(), l.call.(ssa.Instruction).Block()
+			if db.Parent() != lb.Parent() {
+				// in two helpers: both are called from the family; accepted when the calls are not alternatives — decided after inlining only
+				continue
+			}
+			if reachableFromEdge(nil, db, lb, nil) || reachableFromEdge(nil, lb, db, nil) {
+				ok = true
+			}
+		}
+	}
+	r.Check(ok, rule, name, "both parts copied", c.Pos(dict[0].call.Pos()), "an execution that copies named entries can also copy indexed entries",
+		"the copy of the dictionary part and the copy of the list part are alternatives: a node holding both (an object merged with a list under one key) loses one part whenever it is copied — every merge re-copies the merged value into its parent")
 }
